@@ -205,6 +205,12 @@ CATALOGUE = [
     # warnings whose report has several spans on one source line
     K("label-fixup", "compile", "warning", "⟦br⟧ 1{u} + 2", "label-fixup", pre=("1{u}: nop",), wclass="default", level="statement"),
     K("missing-newline", "parse", "warning", "⟦nop⟧ nop", "missing-newline", wclass="all", level="statement"),
+    # diagnostics whose source line / message text is unusual for the report formatters: several ';' on the reported
+    # line (graphical format colours the comment), braces quoted from the source in the message (format templates)
+    K("byte-without-operand-comments", "compile", "warning", "⟦.byte⟧ ; pad ;; keep ; even", "implicit-operand", post=(".even",),
+      wclass="default", level="statement"),
+    K("excess-quote-braces", "parse", "warning", "mov #⟦\"{}\"⟧, r0", "excess-quote", wclass="all"),
+    K("undefined-symbol-comments", "link", "error", ".word ⟦us{u}⟧ ; {0} ; {x} ;", "undefined-symbol"),
 ]
 del K
 
